@@ -346,13 +346,25 @@ def _compare(interp, sym, a, b):
             if isinstance(x, Obj) and isinstance(x.fields.get('__eq__'),
                                                  AbsFunc):
                 return interp.call(x.fields['__eq__'], [y])
+        for x, y in ((a, b), (b, a)):
+            if isinstance(x, Obj) and x.cls is not None:
+                m, _o = x.cls.lookup('__eq__')
+                if isinstance(m, FuncRef):
+                    r = interp.call(m.bind(x), [y])
+                    if isinstance(r, ExtRef) and r.name == 'NotImplemented':
+                        continue
+                    return r
         if isinstance(a, (Obj, FuncRef, ClassRef)) and \
                 isinstance(b, (Obj, FuncRef, ClassRef)):
-            if isinstance(a, Obj) and a.cls is not None and \
-                    a.cls.lookup('__eq__')[0] is not None:
-                pass
-            else:
-                return K(a is b)
+            return K(a is b)
+        for x, y in ((a, b), (b, a)):
+            # a container never equals a constant of another kind
+            if isinstance(x, (ListV, DictV, SetV, TupleV)) and \
+                    isinstance(y, K) and not isinstance(
+                        y.v, {ListV: list, DictV: dict, SetV: (set,
+                                                               frozenset),
+                              TupleV: tuple, NTupleV: tuple}[type(x)]):
+                return K(False)
         ia, ib = _seq_items(a), _seq_items(b)
         if ia is not None and ib is not None and \
                 isinstance(a, (TupleV, K)) == isinstance(b, (TupleV, K)):
@@ -1981,6 +1993,19 @@ def b_pure_ext(dotted):
     return f
 
 
+def b_maketrans(kind):
+    def f(interp, args, kwargs):
+        if _all_const(args) and not kwargs:
+            from .world import to_python
+            try:
+                return from_python(kind.maketrans(
+                    *[to_python(a) for a in args]))
+            except Exception as e:
+                raise py_exc(interp, e)
+        return NotImplemented
+    return f
+
+
 def b_math_ceil(interp, args, kwargs):
     import math
     if _all_k(args):
@@ -2367,6 +2392,7 @@ BUILTINS = {
     'functools.wraps': b_wraps, 'divmod': b_divmod,
     'sys.exc_info': b_exc_info, 'format': b_format,
     're.escape': b_pure_ext('re.escape'),
+    'str.maketrans': b_maketrans(str), 'bytes.maketrans': b_maketrans(bytes),
     'math.floor': b_pure_ext('math.floor'),
     'math.log': b_pure_ext('math.log'), 'math.log2': b_pure_ext('math.log2'),
     'math.log10': b_pure_ext('math.log10'),
